@@ -143,13 +143,18 @@ def run_derived(programs):
 def compare_derived(programs, stats=None):
     """-> list of (index, result_line) that break the tie on the derived fragment: the created flat record
     (or the ValueError of an ambiguous derived level) differs from the real constructor's, anywhere in the
-    fragment; or code_sem and doc_sem are not sem_eqv_t on a program inside the Coq-evaluated guard."""
+    fragment; or code_sem and doc_sem are not sem_eqv_t on a program inside the Coq-evaluated guard
+    (t2d_guard, Front/DerivedGuard.v), as decided by the extracted checker sem_eqv_tb (sound: Properties/T2d.v)
+    and, redundantly, by the driver's own comparison - the two verdicts must agree on every program."""
     res = run_derived(programs)
     bad = []
     for i, r in enumerate(res):
         if stats is not None:
             stats[r] = stats.get(r, 0) + 1
-        if r.startswith("!") or "flat=diff" in r or "fails=diff" in r or ("sem=diff" in r and r.startswith("guard=true")):
+        # semb: the extracted checker sem_eqv_tb (T2d_checker_sound); sem: the driver's own comparison
+        if (r.startswith("!") or "flat=diff" in r or "fails=diff" in r
+                or (r.startswith("guard=true") and ("sem=diff" in r or "semb=false" in r))
+                or ("sem=same" in r) != ("semb=true" in r)):
             bad.append((i, r))
     return bad
 
